@@ -95,7 +95,17 @@ type HexInfo struct {
 }
 
 // Ctx is a per-path term factory.
+type termKey struct {
+	op         Op
+	w          int
+	c          uint64
+	name       string
+	a0, a1, a2 int
+}
+
 type Ctx struct {
+	ktab      map[termKey]*Term
+	ctab      map[constKey]*Term
 	tab       map[string]*Term
 	nextID    int
 	vars      []*Term
@@ -113,21 +123,39 @@ type ufSig struct {
 }
 
 func NewCtx() *Ctx {
-	c := &Ctx{tab: map[string]*Term{}, digit: map[*Term]DigitInfo{}, hexd: map[*Term]HexInfo{}, floatInfo: map[*Term]*FloatText{}, ufs: map[string]ufSig{}}
+	c := &Ctx{tab: map[string]*Term{}, ktab: map[termKey]*Term{}, ctab: map[constKey]*Term{}, digit: map[*Term]DigitInfo{}, hexd: map[*Term]HexInfo{}, floatInfo: map[*Term]*FloatText{}, ufs: map[string]ufSig{}}
 	c.True = c.mk(&Term{op: OConst, w: 0, c: 1})
 	c.False = c.mk(&Term{op: OConst, w: 0, c: 0})
 	return c
 }
 
 func (c *Ctx) mk(t *Term) *Term {
-	var sb strings.Builder
-	fmt.Fprintf(&sb, "%d:%d:%d:%s", t.op, t.w, t.c, t.name)
-	for _, a := range t.a {
-		fmt.Fprintf(&sb, ",%d", a.id)
-	}
-	k := sb.String()
-	if e, ok := c.tab[k]; ok {
-		return e
+	var k termKey
+	var sk string
+	if len(t.a) <= 3 {
+		k = termKey{op: t.op, w: t.w, c: t.c, name: t.name, a0: -1, a1: -1, a2: -1}
+		if len(t.a) > 0 {
+			k.a0 = t.a[0].id
+		}
+		if len(t.a) > 1 {
+			k.a1 = t.a[1].id
+		}
+		if len(t.a) > 2 {
+			k.a2 = t.a[2].id
+		}
+		if e, ok := c.ktab[k]; ok {
+			return e
+		}
+	} else {
+		var sb strings.Builder
+		fmt.Fprintf(&sb, "%d:%d:%d:%s", t.op, t.w, t.c, t.name)
+		for _, a := range t.a {
+			fmt.Fprintf(&sb, ",%d", a.id)
+		}
+		sk = sb.String()
+		if e, ok := c.tab[sk]; ok {
+			return e
+		}
 	}
 	t.id = c.nextID
 	c.nextID++
@@ -153,7 +181,11 @@ func (c *Ctx) mk(t *Term) *Term {
 			t.lb = 0
 		}
 	}
-	c.tab[k] = t
+	if sk != "" {
+		c.tab[sk] = t
+	} else {
+		c.ktab[k] = t
+	}
 	return t
 }
 
@@ -338,6 +370,11 @@ func (c *Ctx) mapLeaves(t *Term, f func(k *Term) *Term) *Term {
 	return c.Ite(t.a[0], c.mapLeaves(t.a[1], f), c.mapLeaves(t.a[2], f))
 }
 
+type constKey struct {
+	w int
+	v uint64
+}
+
 func (c *Ctx) Const(w int, v uint64) *Term {
 	if w == 0 {
 		if v != 0 {
@@ -345,7 +382,14 @@ func (c *Ctx) Const(w int, v uint64) *Term {
 		}
 		return c.False
 	}
-	return c.mk(&Term{op: OConst, w: w, c: v & mask(w)})
+	v &= mask(w)
+	k := constKey{w, v}
+	if t, ok := c.ctab[k]; ok {
+		return t
+	}
+	t := c.mk(&Term{op: OConst, w: w, c: v})
+	c.ctab[k] = t
+	return t
 }
 
 func (c *Ctx) Bool(b bool) *Term {
